@@ -1,6 +1,9 @@
 #!/usr/bin/env bash
 # Re-runs the property's quick check against every stored seeded change (seeded/<id>/patch.diff applied to a
 # fresh scratch worktree of /repo HEAD) and rewrites seeded/<id>/meta.json:checks_run. usage: recheck_seeds.sh [id ...]
+# FULL=1 also re-confirms the change itself (build, the 147 tests, demo exits 0 without / 1 with the change).
+# seeded/<id>/RETARGET (optional, one line of property ids + a reason in meta.json:retarget_note) names the checks
+# to run when a later fix: commit made the change harmless for its original property but not for others.
 set -u
 export GOFLAGS=-mod=mod GOPROXY=off GOSUMDB=off GOTOOLCHAIN=local
 cd /verif
@@ -9,13 +12,30 @@ run_one() {
   id=$1; P=${id%%-*}; D=/verif/seeded/$id
   WT=/dev/shm/rs-$id; rm -rf $WT
   git -C /repo worktree add -q --detach $WT HEAD 2>/dev/null || { echo "$id worktree-failed"; return; }
+  if [ -n "${FULL:-}" ] && [ -f $D/demo.sh ]; then
+    cp $D/demo.sh $WT/; [ -d $D/demo ] && cp -r $D/demo $WT/demo
+    ( cd $WT && bash demo.sh >/dev/null 2>&1 ); dc=$?
+  fi
   if ! git -C $WT apply $D/patch.diff 2>/dev/null; then echo "$id PATCH-DOES-NOT-APPLY"; git -C /repo worktree remove --force $WT; return; fi
-  o=$(VERIF_REPO=$WT VERIF_OUT=/dev/shm/rs-out-$id ./check $P quick 2>&1); rc=$?
-  sig=$(echo "$o" | grep "failing signature" | head -3 | sed 's/  failing signature //' | tr '\n' ';')
-  v=MISSED; [ $rc = 1 ] && v=CAUGHT; [ $rc = 2 ] && v=BROKEN
-  echo "$id $v $sig" | cut -c1-200
-  jq --arg q "$P" --arg v "$v" --arg s "$sig" --arg b "$(git -C /repo rev-parse --short HEAD)" --arg h "$(git -C /verif rev-parse --short HEAD)" \
-     '.checks_run=[{check:$q,tier:"quick",verdict:$v,signatures:$s}] | .goit_base=$b | .verif_commit=$h' $D/meta.json > $D/meta.json.tmp && mv $D/meta.json.tmp $D/meta.json
+  if [ -n "${FULL:-}" ]; then
+    b=ok; ( cd $WT && go build ./... && go build -tags verif ./... ) >/dev/null 2>&1 || b=FAIL
+    t=ok; ( cd $WT && go test -vet=off -count=1 ./... ) >/dev/null 2>&1 || t=FAIL
+    ds=NA; [ -f $WT/demo.sh ] && { ( cd $WT && bash demo.sh >/dev/null 2>&1 ); ds=$?; }
+    echo "$id build=$b tests=$t demo_clean_exit=${dc:-NA} demo_seeded_exit=$ds"
+    jq --arg b "$b" --arg t "$t" --arg dc "${dc:-NA}" --arg ds "$ds" '.compiles=$b | .baseline_tests=$t | .demo_exit_unchanged_tree=$dc | .demo_exit_with_change=$ds' $D/meta.json > $D/meta.json.tmp && mv $D/meta.json.tmp $D/meta.json
+  fi
+  props=$P; [ -f $D/RETARGET ] && props=$(cat $D/RETARGET)
+  results="[]"; line=""
+  for q in $props; do
+    o=$(VERIF_REPO=$WT VERIF_OUT=/dev/shm/rs-out-$id ./check $q quick 2>&1); rc=$?
+    sig=$(echo "$o" | grep "failing signature" | head -3 | sed 's/  failing signature //' | tr '\n' ';')
+    v=MISSED; [ $rc = 1 ] && v=CAUGHT; [ $rc = 2 ] && v=BROKEN
+    line="$line $q:$v $sig"
+    results=$(echo "$results" | jq --arg q "$q" --arg v "$v" --arg s "$sig" '. + [{check:$q,tier:"quick",verdict:$v,signatures:$s}]')
+  done
+  echo "$id$line" | cut -c1-200
+  jq --argjson r "$results" --arg b "$(git -C /repo rev-parse --short HEAD)" --arg h "$(git -C /verif rev-parse --short HEAD)" \
+     '.checks_run=$r | .goit_base=$b | .verif_commit=$h' $D/meta.json > $D/meta.json.tmp && mv $D/meta.json.tmp $D/meta.json
   git -C /repo worktree remove --force $WT; rm -rf /dev/shm/rs-out-$id
 }
 git -C /repo worktree prune
